@@ -8,24 +8,29 @@
 (* every offending event, and the postcondition demands that the whole      *)
 (* trace was consumed.                                                      *)
 (***************************************************************************)
-EXTENDS Accept, TLC, Json, IOUtils
+EXTENDS Accept, SemWrap, TLC, Json, IOUtils
 
 Rec  == ndJsonDeserialize(IOEnv.TRACE)
 Prop == IOEnv.PROP
 
-VARIABLES l, nrej
-vars == <<l, nrej>>
+VARIABLES l, nrej,
+          reg, lay        \* register machine state of Wrapping<F> programs (C18)
+vars == <<l, nrej, reg, lay>>
 
-Init == l = 1 /\ nrej = 0
+Init == l = 1 /\ nrej = 0 /\ reg = [i \in 1..4 |-> Z0] /\ lay = <<0, 8, 0>>
+IsW(e) == e.k \in {"wreset", "wload", "w"}
 
 \* Verdict of one event: "ok" (a step of the specification under layer M), the name of the
 \* known deviation whose layer-A model reproduces it bit for bit, or "" (a violation).
 \* NB: the verdict is computed as a VALUE (Accept(..) = TRUE): inside an action TLC would otherwise
 \* treat every disjunction of Accept as a nondeterministic branch and evaluate all disjuncts.
-Verdict(e) == IF Accept(e, Prop) = TRUE THEN "ok" ELSE Deviation(e, Prop)
+Verdict(e) == IF IsW(e) THEN WVerdict(e, reg, lay)
+              ELSE IF Accept(e, Prop) = TRUE THEN "ok" ELSE Deviation(e, Prop)
 
 Step == /\ l <= Len(Rec)
         /\ l' = l + 1
+        /\ reg' = (IF IsW(Rec[l]) THEN WRegNext(Rec[l], reg) ELSE reg)
+        /\ lay' = (IF Rec[l].k = "wreset" THEN Rec[l].L ELSE lay)
         /\ IF Verdict(Rec[l]) = "ok"
            THEN nrej' = nrej                                         \* Conform
            ELSE /\ PrintT(<<"REJECT", l, Verdict(Rec[l])>>)          \* KnownDeviation / Violation
